@@ -256,7 +256,8 @@ Proof. exact pipeline_par_eq_seq_lem. Qed.
 
 (* EARLY STOPPING COMPOSED THROUGH A WHOLE PIPELINE (Conc/LazyPipe.v, the lazy / demand-driven embedding).
    A pipeline of map / accept stages (MapAuto / FilterAuto protocol) and closure stages on the calling goroutine
-   (number), nested in any order and number, in front of a short-circuit consumer `cons` (first, top(n), present,
+   (LScan: ANY stateful stage that passes error elements on - number, iir, fsm, combine ... - given by its step function;
+   number_step is list.go's Number), nested in any order and number, in front of a short-circuit consumer `cons` (first, top(n), present,
    indexWhere, single, ~ : a function from the delivered prefix to continue | stop result; an error element makes the
    evaluation fail).  The source may already contain errors.
 
@@ -307,8 +308,8 @@ Example lazy_pipeline_nonvacuous :
   let mk := fun a b fl => (mkSP a b 0 0 1 fl true 0 0 false 0 0)%Z in
   let pps := fun (pos : nat) (l : list (res Z)) => mkPP 12 true 3 (gen_sched (3 * length l) 3 (7 + N.of_nat pos)) [] in
   let src := map (@ROk Z) (numbers 40%Z) in
-  let st1 := [LMap (mk 3 1 (-1))%Z; LNumber (mk 2 5 (-1))%Z; LMap (mk 1 7 (lin1 1 7 (lin2 2 5 30 (lin1 3 1 30))))%Z] in
-  let st2 := [LMap (mk 3 1 (lin1 3 1 9))%Z; LNumber (mk 2 5 (-1))%Z; LMap (mk 1 7 (-1))%Z] in
+  let st1 := [LMap (mk 3 1 (-1))%Z; LScan [0%Z] (number_step (mk 2 5 (-1))%Z); LMap (mk 1 7 (lin1 1 7 (lin2 2 5 30 (lin1 3 1 30))))%Z] in
+  let st2 := [LMap (mk 3 1 (lin1 3 1 9))%Z; LScan [0%Z] (number_step (mk 2 5 (-1))%Z); LMap (mk 1 7 (-1))%Z] in
   passignment_ok pps
   /\ scan (c_top 15) (lazy_run pps (cons_stop (c_top 15)) st1 src) = scan (c_top 15) (lazy_seq st1 src)
   /\ (exists r, scan (c_top 15) (lazy_seq st1 src) = VResult r /\ length r = 15%nat)
